@@ -5,6 +5,7 @@ import (
 	"github.com/bokysan/socketace/v2/internal/version"
 	"github.com/pkg/errors"
 	"net/textproto"
+	"time"
 )
 
 const (
@@ -18,6 +19,9 @@ const (
 	SecurityNone           = "none"
 	SecurityTls            = "tls"
 )
+
+// HandshakeTimeout bounds the time a peer may take to complete the SocketAce handshake (including StartTLS)
+var HandshakeTimeout = 30 * time.Second
 
 var SupportedProtocolVersions = []string{
 	// Make sure this list is in descending order
